@@ -26,9 +26,8 @@ Record vmst := mkVm { v_heap : store; v_arrs : smap varr; v_st : mstate }.
 (* Machine::new + the first execute_idx (global_states.resize(skeleton size)) *)
 Definition vm_init (state_size : N) : vmst := mkVm sm_new sm_new (st_init state_size).
 
-(* slotmap KeyData::as_ffi: (version << 32) | idx;  from_ffi: idx = low 32 bits, version = (high 32 bits) | 1 *)
-Definition ffi_of_key (k : key) : N := N.lor (N.shiftl (kver k) 32) (kidx k).
-Definition key_of_ffi (r : N) : key := mkKey (N.land r 4294967295) (N.lor (N.shiftr r 32) 1).
+(* array handles are KeyData::as_ffi / from_ffi images (Impl.ffi_of_key / key_of_ffi); heap handles are transmuted keys *)
+Definition VE : henc := enc_transmute.
 
 (* ArrayStorage::alloc_array(len, elem_size): zeroed, returns key.data().as_ffi() *)
 Definition vm_alloc_array (a : smap varr) (len esz : N) : smap varr * word :=
@@ -140,12 +139,12 @@ Definition F64_48000 : word := 4676829883349860352.   (* 48000.0 = 0x40E77000000
 
 Definition vm_step (t : tabs) (v : vmst) (o : op) : vmst * ires :=
   match o with
-  | OHeapAlloc size => let (h, r) := hp_alloc (v_heap v) (repeat 0 (N.to_nat size)) in (with_vheap v h, r)
-  | OBoxAlloc src => let (h, r) := hp_alloc (v_heap v) (map (resolve t) src) in (with_vheap v h, r)
-  | OHeapRetain h => let (h', r) := hp_retain (v_heap v) (resolve t h) in (with_vheap v h', r)
-  | OHeapRelease h => let (h', r) := hp_release (v_heap v) (resolve t h) in (with_vheap v h', r)
-  | OHeapLoad h size => (v, hp_load (v_heap v) (resolve t h) size)
-  | OHeapStore h src => let (h', r) := hp_store (v_heap v) (resolve t h) (map (resolve t) src) in (with_vheap v h', r)
+  | OHeapAlloc size => let (h, r) := hp_alloc VE (v_heap v) (repeat 0 (N.to_nat size)) in (with_vheap v h, r)
+  | OBoxAlloc src => let (h, r) := hp_alloc VE (v_heap v) (map (resolve t) src) in (with_vheap v h, r)
+  | OHeapRetain h => let (h', r) := hp_retain VE (v_heap v) (resolve t h) in (with_vheap v h', r)
+  | OHeapRelease h => let (h', r) := hp_release VE (v_heap v) (resolve t h) in (with_vheap v h', r)
+  | OHeapLoad h size => (v, hp_load VE (v_heap v) (resolve t h) size)
+  | OHeapStore h src => let (h', r) := hp_store VE (v_heap v) (resolve t h) (map (resolve t) src) in (with_vheap v h', r)
   | OStatePush o =>
       (* the offset type is U24: other offsets cannot be written in bytecode *)
       if ((o <? 0) || (U24_LIMIT <=? o))%Z then (v, IFault FBadSize)
